@@ -33,11 +33,13 @@ enum Req {
   R_TERM,    // cstr / line with a terminator inside the buffer
   R_UNTERM,  // cstr / line running into the end of the buffer
   R_GROW,    // growable writer: write extends the data
+  R_REALLOC,  // aliasing stage: the append does not fit the current capacity (the data must move)
+  R_INCAP,    // aliasing stage: the append fits the current capacity
   NREQ
 };
-static const char* const REQ_CLASS[NREQ] = {"in", "end", "zero-at-end", "past-end", "wrapped", "terminated", "unterminated", "grow"};
+static const char* const REQ_CLASS[NREQ] = {"in", "end", "zero-at-end", "past-end", "wrapped", "terminated", "unterminated", "grow", "realloc", "in-capacity"};
 // violation keys fold the three in-range shapes into one word
-static const char* const REQ_KEY[NREQ] = {"in-range", "in-range", "in-range", "past-end", "wrapped", "terminated", "unterminated", "grow"};
+static const char* const REQ_KEY[NREQ] = {"in-range", "in-range", "in-range", "past-end", "wrapped", "terminated", "unterminated", "grow", "realloc", "in-capacity"};
 
 static inline bool in_range(u64 n, u64 off, u64 size) { return off <= n && size <= n - off; }
 static inline Req classify(u64 n, u64 off, u64 size) {
@@ -258,6 +260,7 @@ struct Runner {
       shm->skipped_poisoned++;
       return false;
     }
+    vf::poison_errno();  // correct code never depends on the errno it finds on entry
     shm->cur = k;
     shm->in_call = 1;
     shm->started_any = 1;
